@@ -386,6 +386,14 @@ class TagsStream(runner.Stream):
             "tags set c:P3:bool,b:A1:int,...,e:P1:null,d:U9:null,f:-:bool",
             "tags set a:C7:int,...,d:P1:null,c:C2:octs,b:A3:bool,e:U0:null",
             "tags set a:C0:int,...,b:C5:bool!,c:-:setof",
+            # more than 20 components (the sort of the standard library changes its algorithm there): the
+            # additions all compare equal and must stay in textual order
+            "tags set r7:C7:bool,r2:C2:bool,r5:C5:bool,r0:C0:bool,r6:C6:bool,r1:C1:bool,r4:C4:bool,r3:C3:bool,...,e0:C10:int?,e1:C11:int?,e2:C12:int?,e3:C13:int?,e4:C14:int?,e5:C15:int?,e6:C16:int?,e7:C17:int?,e8:C18:int?,e9:C19:int?,e10:C20:int?,e11:C21:int?,e12:C22:int?,e13:C23:int?",
+            "tags set r7:C7:bool,r2:C2:bool,r5:C5:bool,r0:C0:bool,...,e0:C40:int?,e1:C39:int?,e2:C38:int?,e3:C37:int?,e4:C36:int?,e5:C35:int?,e6:C34:int?,e7:C33:int?,e8:C32:int?,e9:C31:int?,e10:C30:int?,e11:C29:int?,e12:C28:int?,e13:C27:int?,e14:C26:int?,e15:C25:int?,e16:C24:int?,e17:C23:int?",
+            "tags set r7:C7:bool,r2:C2:bool,r5:C5:bool,r0:C0:bool,r6:C6:bool,r1:C1:bool,...,e0:C20:int?,e1:C27:int?,e2:C34:int?,e3:C25:int?,e4:C32:int?,e5:C23:int?,e6:C30:int?,e7:C21:int?,e8:C28:int?,e9:C35:int?,e10:C26:int?,e11:C33:int?,e12:C24:int?,e13:C31:int?,e14:C22:int?,e15:C29:int?",
+            "tags set r0:C0:bool,r1:C11:bool,r2:C22:bool,r3:C10:bool,r4:C21:bool,r5:C9:bool,r6:C20:bool,r7:C8:bool,r8:C19:bool,r9:C7:bool,r10:C18:bool,r11:C6:bool,r12:C17:bool,r13:C5:bool,r14:C16:bool,r15:C4:bool,r16:C15:bool,r17:C3:bool,r18:C14:bool,r19:C2:bool,r20:C13:bool,r21:C1:bool,r22:C12:bool",
+            # tag numbers of 256 and more
+            "tags set a:P0:bool,b:C300:int", "tags set a:C2:bool,b:A1000:int,c:-:bool", "tags set a:C65536:bool,b:A70000:int,c:U255:null,d:U256:null",
             # reference cycles (regression corpus of the repaired finding tags.cyclic-abort; `!` = in a
             # child process, so that a stack overflow would be the answer `abort` of this request)
             "tags set! a:-:@R,b:A1:bool R=-:ch[-~@R|-~int]",             # legal; now tags.choice-autotag
